@@ -97,6 +97,34 @@ def qwt (t : QWTree.QWT) : Sp :=
     self_ := 0,   -- depends on `T`; the harness adds `size_of_val`
     usage := 8 + 8 + (parts.map (·.usage)).foldl (· + ·) 0 + p.usage }
 
+/-- heap bytes of the Huffman tables: `codes_encode` keeps the `sigma + 1` slots it was
+    created with (8 bytes each), `codes_decode` is a vector of `max_len + 1` vectors grown by
+    `push` (amortised capacity), each entry a `(u32, T)` pair -/
+def tablesHeap (wbytes : Nat) (enc : Array Huff.PrefixCode) (dec : Array (Array (Nat × Nat))) : Nat :=
+  let entry := max 8 (2 * wbytes)
+  8 * enc.size + 24 * dec.size + dec.foldl (fun a v => a + pushCap v.size * entry) 0
+
+def hqwtW (wbytes : Nat) (t : Huff.HQWT) : Sp :=
+  let parts := t.qvs.toList.map rsq
+  let p := pfsOpt t.nLevels t.pfs
+  { heap := 144 * t.qvs.size + (parts.map (·.heap)).foldl (· + ·) 0 + p.heap
+            + tablesHeap wbytes t.codesEncode t.codesDecode + 8 * t.lens.size,
+    self_ := 0,
+    usage := 8 + 8 + 256 * 8 + t.codesDecode.foldl (fun a v => a + v.size * (4 + 1)) 0
+             + t.lens.size * 8 + (parts.map (·.usage)).foldl (· + ·) 0 + p.usage }
+
+def wtW (wbytes : Nat) (compressed : Bool) (t : BinWT.WT) : Sp :=
+  let parts := t.bvs.toList.map rsw
+  let coding := if compressed then
+      256 * 8 + (match t.codesDecode with | some d => d.size * (4 + 1) | none => 0)
+    else 0
+  let tables := match t.codesEncode, t.codesDecode with
+    | some e, some d => tablesHeap wbytes e d
+    | _, _ => 0
+  { heap := 88 * t.bvs.size + 8 * t.lens.size + (parts.map (·.heap)).foldl (· + ·) 0 + tables,
+    self_ := 0,
+    usage := 8 + 8 + coding + t.lens.size * 8 + (parts.map (·.usage)).foldl (· + ·) 0 }
+
 def hqwt (t : Huff.HQWT) : Sp :=
   let parts := t.qvs.toList.map rsq
   let p := pfsOpt t.nLevels t.pfs
